@@ -34,6 +34,7 @@ import (
 
 	"github.com/tochemey/goakt/v4/internal/commands"
 	"github.com/tochemey/goakt/v4/internal/types"
+	"github.com/tochemey/goakt/v4/internal/verifhook"
 )
 
 // consumerControllerTick is the generation-fenced recurring timer message the
@@ -188,6 +189,7 @@ func (x *consumerController) Receive(ctx *ReceiveContext) {
 	default:
 		ctx.Unhandled()
 	}
+	verifhook.At("reliable.consumer.received", ctx, 0, 0)
 }
 
 // handlePostStart watches the consumer, attempts a first registration, and
@@ -487,6 +489,7 @@ func (x *consumerController) bufferMessage(ctx *ReceiveContext, msg *commands.Se
 	case found:
 		// duplicate of a buffered sequence
 	case len(x.buffer) >= x.window:
+		verifhook.At("reliable.consumer.bufferfull", x, msg.Seq(), int64(len(x.buffer)))
 		ctx.Logger().Debugf("consumer controller for endpoint=%s dropped seq=%d: receive buffer full", x.consumer.Name(), msg.Seq())
 	default:
 		x.buffer = slices.Insert(x.buffer, index, msg)
@@ -774,6 +777,9 @@ func (x *consumerController) fail(ctx *ReceiveContext, stage ReliableDeliverySta
 // a momentary overload and restart the controller. The debug log is
 // therefore the only remaining action.
 func (x *consumerController) tell(ctx *ReceiveContext, to *PID, message any) {
+	if verifhook.Enabled && verifhook.Fault("reliable.consumer.tell", [3]any{ctx, to, message}, 0) != 0 {
+		return
+	}
 	if err := ctx.Self().Tell(context.WithoutCancel(ctx.Context()), to, message); err != nil {
 		ctx.Logger().Debugf("consumer controller for endpoint=%s lost message to %s: %v", x.consumer.Name(), to.Name(), err)
 	}
